@@ -15,7 +15,10 @@ TRAVERSAL = ["../x", "../../x", "a/../../x", "a/../../../x", "/abs", "/c/a/x", "
              # directory only if something normalises the name AFTER it was validated (trimming, dropping control or
              # invisible characters, unescaping, case or width folding)
              " ../x", "\t../x", "\n../../x", "../x ", "sub/ ../../x ", " /abs", ".\x01./x", "a/.\x01./.\x01./x", ".\x7f./.\x7f./x",
-             ".\x1b./x", "..\r/x", "%2e%2e/x", "..%2fx", "%2e%2e%2f%2e%2e%2fx", "..;/x", ".. ./x", "&#46;&#46;/x", "..\\/x", "~/x", "$HOME/x", "a/ .. / .. /x"]
+             ".\x1b./x", "..\r/x", "%2e%2e/x", "..%2fx", "%2e%2e%2f%2e%2e%2fx", "..;/x", ".. ./x", "&#46;&#46;/x", "..\\/x", "~/x", "$HOME/x", "a/ .. / .. /x",
+             # rooted names that climb right behind the root, and SIBLING directories whose names begin with the name of the
+             # archive's own directory (a prefix test on strings instead of on path components lets them through)
+             "/../x", "//../x", "/sub/../../x", "/./../x", "../set.bak/x", "../set-old/x", "../settings/x", "../set2/x", "../set/../set.bak/x"]
 
 
 def run(ctx):
